@@ -1129,3 +1129,23 @@ Proof.
   vm_compute. repeat split.
 Qed.
 End C02_translated_quit_all.
+
+(* the `a` loop of the C text against the model of round i/j: a model table describes the C table (tab_rel: the same slots occupied; the
+   answers sv are those of an environment in which a buffer WITHOUT a name cannot be saved), the environment's answers for the named slots in
+   slot order are the schedule the model consumes (sch_of).  Then the C loop stores xquit exactly when DirtyAllDefs.quit_n exits; and
+   therefore, for the C text: if xa stores xquit, every buffer of the table has a name and its file holds its text *)
+Section C02_translated_quit_all_model.
+Import CLite CLiteProps GenCFuncs CLiteTac CLiteExt TrLbufBase TrLbuf TrBufs TrQuit TrQuitAll.
+Theorem C02_tr_quit_all_is_model : forall t sv bang tab, length tab = 16%nat -> tab_rel t sv 0 tab ->
+  (qa t sv 16 0 = None <-> snd (fst (fst (quit_n true bang [] tab (sch_of sv 0 tab) []))) = true).
+Proof. exact tr_quit_all_is_model. Qed.
+Print Assumptions C02_tr_quit_all_is_model.
+Theorem C02_tr_quit_all_exit_sound : forall t sv bang tab, length tab = 16%nat -> tab_rel t sv 0 tab ->
+  Forall NInv (noccupied tab) -> qa t sv 16 0 = None ->
+  Forall (fun f => nname f <> None) (noccupied tab) /\
+  let t' := fst (fst (fst (quit_n true bang [] tab (sch_of sv 0 tab) []))) in
+  Forall (fun f => ln (lb (nb f)) = disk (nb f)) (noccupied t') /\
+  map (fun f => ln (lb (nb f))) (noccupied t') = map (fun f => ln (lb (nb f))) (noccupied tab).
+Proof. exact tr_quit_all_exit_sound. Qed.
+Print Assumptions C02_tr_quit_all_exit_sound.
+End C02_translated_quit_all_model.
